@@ -206,3 +206,24 @@ Definition wrap_events (es : bool) (evs : list event) : list event :=
   EStreamStart :: EDocumentStart es :: evs ++ [EDocumentEnd; EStreamEnd].
 (* the root node of a document: anything well-formed in block context; left out only after "---" *)
 Definition wf_root (es : bool) (t : ltree) : bool := if is_none t then es else wf true false t.
+
+(* ---- the grammar without the restriction "key not left out" of unwrapped single pairs in flow sequences ----
+   ([wf] excludes `[ ? ]` / `[ ? : x ]`, token lists FlowSequenceStart Key (Value x)? ..., because of the recorded C03
+   finding explicit-key-indicator-without-key-in-flow-sequence; [wf_full] is what YAML 1.2 admits) *)
+Definition fsent_wf_full (f : ltree -> bool) (e : ltree + (ltree * (bool * ltree))) : bool :=
+  match e with
+  | inl n => f n
+  | inr (k, (vt, v)) => (is_none k || f k) && (vt || is_none v) && (is_none v || f v)
+  end.
+Fixpoint wf_full (b i : bool) (t : ltree) : bool :=
+  match t with
+  | LScalar _ _ _ | LAlias _ => true
+  | LNone => false
+  | LProps pr => has_some_props pr
+  | LBSeq _ items => b && forallb (fun x => is_none x || wf_full true false x) items
+  | LISeq _ items => b && i && nonempty items && forallb (fun x => is_none x || wf_full true false x) items
+  | LBMap _ ents => b && forallb (ent_wf (wf_full true true)) ents && adj_ok ents
+  | LFSeq _ ents trail => forallb (fsent_wf_full (wf_full false false)) ents && (negb trail || nonempty ents)
+  | LFMap _ ents trail => forallb (fment_wf (wf_full false false)) ents && (negb trail || nonempty ents)
+  end.
+Definition wf_root_full (es : bool) (t : ltree) : bool := if is_none t then es else wf_full true false t.
